@@ -13,6 +13,11 @@
   NOT CLAIMED: `canon_invariant`, the invariance when the N-degree phase runs (it is the correctness
   theorem of RDFC-1.0 itself, false under hash collisions; stated below as a `def … : Prop`).  That
   part is covered by the harness only (relabel × permute variants, 8–72 iteration orders).
+  EXTENDED in Props/C03Relabel.lean (round 3): relabelling invariance for ARBITRARY datasets, the
+  N-degree phase included (`canon_invariant_relabel`, `spec_equivariant`), the reduction of
+  `canon_invariant` to invariance under quad order and map iteration order
+  (`canon_invariant_of_order_invariant`), and invariance of the identifiers of all uniquely hashed
+  nodes in arbitrary datasets (`canon_invariant_unique_partial`).
 -/
 import RdfModel.Props.C04
 import RdfModel.Props.C01
@@ -151,10 +156,12 @@ theorem limit_never_wrong (T : NQ.Tables) (hT : TablesCanon T) (H : Str → Str)
 
 /-- FULL STATEMENT, NOT PROVED, NOT CLAIMED: invariance of the canonical bytes for arbitrary datasets
     (the N-degree phase included), for a hash function without collisions on the strings the algorithm
-    hashes (here: injective).  Missing: invariance of Hash N-Degree Quads under `ord`, under the order
-    of the blank node lists (the permutation enumeration) and under relabelling when hash paths tie
-    only between automorphic nodes — the correctness argument of RDFC-1.0 itself, for which no formal
-    proof is published.  Covered by the harness (oracle C03) only. -/
+    hashes (here: injective).  Missing: invariance of Hash N-Degree Quads under `ord` and under the order
+    of the blank node lists (a function of the quad order) when hash paths tie only between
+    automorphic nodes — the correctness argument of RDFC-1.0 itself, for which no formal proof is
+    published.  (Relabelling alone is proved: `canon_invariant_relabel` in Props/C03Relabel.lean, which
+    also proves that this statement follows from order invariance.)  Covered by the harness (oracle
+    C03) only. -/
 def canon_invariant (T : NQ.Tables) (H : Str → Str) : Prop :=
   Function.Injective H →
   ∀ (qs qs' : List (Quad Nat)) (σ : Nat → Nat), Function.Injective σ → qs'.Perm (qs.map (Quad.map σ)) →
